@@ -869,6 +869,17 @@ class _FunctionPass:
                     e1[key] = frozenset({"y"})
                 elif isinstance(t0.ops[0], ast.Eq):
                     e2[key] = frozenset({"y"})
+            # not isspmatrix_csr(X) / isspmatrix_csr(X)
+            neg, t1 = False, t0
+            if isinstance(t1, ast.UnaryOp) and isinstance(t1.op, ast.Not):
+                neg, t1 = True, t1.operand
+            if isinstance(t1, ast.Call) and src(t1.func).split(".")[-1] in (
+                    "isspmatrix_csr", "isspmatrix_csc",
+                    "isspmatrix_coo") and t1.args and isinstance(
+                    t1.args[0], ast.Name):
+                fmt = src(t1.func).split(".")[-1][-3:]
+                key = f"#notfmt:{t1.args[0].id}:{fmt}"
+                (e1 if neg else e2)[key] = frozenset({"y"})
             self.block(st.body, e1)
             self.block(st.orelse, e2)
             env.clear()
